@@ -135,6 +135,16 @@ func init() {
 							vecs = append(vecs, v)
 						}
 					}
+					if st == "least_connections" {
+						// heavily loaded backends: in-flight counts around the transport's per-host limit (100) and far beyond
+						for _, big := range []int{99, 100, 101, 5000} {
+							v := make([]int, n)
+							for i := range v {
+								v[i] = big + i%2
+							}
+							vecs = append(vecs, v)
+						}
+					}
 					for _, v := range vecs {
 						c := c02Sub{Strategy: st, N: n, Inflight: v}
 						if st == "weighted_round_robin" {
